@@ -60,11 +60,25 @@ def strategy_(draw, tier):
     else:
       node = {'k': 'nt', 'type': draw(st.sampled_from(['Pair', 'PairSub', 'GenericNT'])), 'items': [ref(), ref()]}
     nodes.append(node)
-  fnspec = draw(recipes.fnspecs())
+  if draw(st.sampled_from(range(12))) == 0:
+    # callables whose positional defaults are None / 0 (falsy defaults)
+    fnspec = {'kind': 'sym', 'name': draw(st.sampled_from(['things:join_none', 'things:pos_none']))}
+  else:
+    fnspec = draw(recipes.fnspecs())
   nav = len(nodes)
   pick = lambda: recipes.child_ref(draw, nav, leaf_st, p_alias=0.6)
   pos, kw, edits, pattern = draw(recipes.arg_program(fnspec, pick))
-  nodes.append({'k': 'B', 'bt': 'Config', 'fn': fnspec, 'pos': pos, 'kw': kw, 'edits': edits})
+  root = {'k': 'B', 'bt': 'Config', 'fn': fnspec, 'pos': pos, 'kw': kw, 'edits': edits}
+  if draw(st.sampled_from(range(6))) == 0:
+    # tags on the root's arguments, by index and by name (they must not influence the call)
+    info = recipes.ParamInfo(recipes.resolve_fn(fnspec))
+    keys = list(range(len(info.posonly))) + info.poskw + info.kwonly
+    if info.varargs:
+      keys.append(info.npos)
+    if keys:
+      root['tags'] = [[k, draw(st.sampled_from(['TagA', 'TagB']))]
+                      for k in draw(st.lists(st.sampled_from(keys), min_size=1, max_size=3, unique_by=repr))]
+  nodes.append(root)
   return {'nodes': nodes, 'root': len(nodes) - 1, 'pattern': pattern}
 
 
